@@ -19,7 +19,7 @@ from .mir import norm_name
 HERE = os.path.dirname(os.path.dirname(os.path.abspath(__file__)))
 KNOWN_PATH = os.path.join(HERE, "known_items.json")
 MAX_ROUNDS = 4
-MAX_BLOCKS = 400
+MAX_BLOCKS = 6000
 
 
 def load_known():
